@@ -11,7 +11,7 @@ ID = 'C05'
 LEVEL = 'exploration'
 RUNS = {'quick': 16000, 'thorough': 300000}
 CHUNK = 50
-PROBES = ['huge_gap_inside_open_window', 'exit_string_repeats_learned_name', 'many_threads_pending', 'newthread_names_live_peer', 'peer_terminate_inside_open_window', 'switch_between_data_and_string', 'switch_between_data_and_string_both_threads', 'switch_between_lookup_chunks',
+PROBES = ['pair_names_pid_zero', 'same_global_string_on_two_threads', 'undecoded_id_on_two_threads', 'huge_gap_inside_open_window', 'exit_string_repeats_learned_name', 'many_threads_pending', 'newthread_names_live_peer', 'peer_terminate_inside_open_window', 'switch_between_data_and_string', 'switch_between_data_and_string_both_threads', 'switch_between_lookup_chunks',
           'switch_between_string_chunks', 'switch_after_start', 'switch_inside_sample', 'three_or_more_threads',
           'dropped_record']
 RULE = ('one run = 2..6 thread programs, each executed solo (baseline) and merged under 6 seeded schedules of different '
@@ -83,6 +83,9 @@ def generate(rng, index, tier):
         mix = {'tracedom': 8, 'path': 2, 'bsd': 1}
     elif focus == 1:
         mix = {'path': 5, 'lookup': 3, 'gstr': 3, 'dyld': 2}
+    elif focus == 2:
+        # codes the tool does not decode (the same few on every thread), alone and as windows, inside and around decoded calls
+        mix = {'undecoded': 4, 'bsd': 3, 'path': 2, 'mach': 2, 'unknown': 1}
     for k in list(mix):
         if rng.chance(0.15) and len(mix) > 2:
             mix[k] = 0
@@ -107,7 +110,26 @@ def generate(rng, index, tier):
     # perturbation population: records that NAME another simulated thread (terminate of a peer, sampler thread-info for the
     # tid a peer announces).  Their own rendering reads shared tables by design and is excluded from the text comparison;
     # what they must not do is change any OTHER trace.
-    if len(threads) >= 2 and rng.chance(0.4):
+    changed = False
+    if len(threads) >= 2 and rng.chance(0.15):
+        # two threads announce the same global string (same id, same text): whichever comes first, the table holds the same
+        gs = [(ti, op) for ti, th in enumerate(threads) for op in th['ops'] if op.get('k') == 'gstr']
+        if gs:
+            import copy
+            ti, op = rng.pick(gs)
+            other = rng.pick([i for i in range(len(threads)) if i != ti])
+            threads[other]['ops'].insert(rng.randrange(len(threads[other]['ops']) + 1), copy.deepcopy(op))
+            changed = True
+            faults = []      # (with a lost announcement the other thread's copy would, by design, show in this thread's text)
+    pert_on = len(threads) >= 2 and rng.chance(0.4)
+    if pert_on or rng.chance(0.15):
+        # one pair of the world is the kernel's own: pid 0 (a valid pid that is false in a boolean test)
+        pairs0 = [op for th in threads for op in th['ops'] if op.get('k') == 'seq' and len(op['ops']) == 2
+                  and op['ops'][0].get('name') in ('TRACE_DATA_NEWTHREAD', 'TRACE_DATA_EXEC')]
+        if pairs0 and rng.chance(0.5):
+            d0 = rng.pick(pairs0)['ops'][0]
+            d0['a'][1 if d0['name'] == 'TRACE_DATA_NEWTHREAD' else 0] = 0
+    if pert_on:
         for _ in range(rng.randint(1, 2)):
             a, b = rng.sample(range(len(threads)), 2)
             born = [op['ops'][0]['a'][0] for op in threads[b]['ops'] if op.get('k') == 'seq' and op['ops'] and op['ops'][0].get('name') == 'TRACE_DATA_NEWTHREAD']
@@ -136,6 +158,8 @@ def generate(rng, index, tier):
             else:
                 pert = {'k': 'one', 'name': 'TRACE_DATA_THREAD_TERMINATE', 'q': 0, 'a': [threads[b]['tid'], 0, 0, 0]}
             threads[a]['ops'].insert(rng.randrange(len(threads[a]['ops']) + 1), pert)
+        changed = True
+    if changed:
         per = kernel.expand_threads(threads, ids)
         schedules = [draw_sensitive(rng, per, table) for _ in range(4)] + [kernel.draw_schedule(rng, per, 'uniform'), kernel.draw_schedule(rng, per, 'rr1')]
     return {'threads': threads, 'schedules': schedules, 'faults': faults, 'tsmode': worlds.draw_tsmode(rng)}
@@ -187,6 +211,21 @@ def execute(scn):
     tids = {th['tid'] for th in scn['threads']}
     if any(r['a'][0] in tids for p in per for r in p if table.get(r['id']) == 'TRACE_DATA_NEWTHREAD'):
         bump('probe:newthread_names_live_peer')
+    gsk = {}
+    und = {}
+    for ti, p in enumerate(per):
+        for r in p:
+            nm = table.get(r['id'])
+            if nm == 'TRACE_STRING_GLOBAL' and r['q'] & 1:
+                gsk.setdefault(r['a'][1], set()).add(ti)
+            elif nm is None or nm not in worlds.catalog()['names_set']:
+                und.setdefault(r['id'], set()).add(ti)
+            if nm in ('TRACE_DATA_NEWTHREAD', 'TRACE_DATA_EXEC') and r['a'][1 if nm == 'TRACE_DATA_NEWTHREAD' else 0] == 0:
+                bump('probe:pair_names_pid_zero')
+    if any(len(v) >= 2 for v in gsk.values()):
+        bump('probe:same_global_string_on_two_threads')
+    if any(len(v) >= 2 for v in und.values()):
+        bump('probe:undecoded_id_on_two_threads')
     viols = []
     hist = []
     base = {}
